@@ -205,6 +205,43 @@ func scenarioHTTPAPI(t *traceWriter, rng *rand.Rand) {
 				probe()
 			}
 		}
+		// stored checkpoints of about 1.5, 3 and 10 KB (honest checkpoints with extension lines): what the handlers write and the
+		// bundled client reads back must be exact on both sides of net/http's 2048-byte buffering / chunking boundary
+		for k, total := range []int{1500, 3000, 10000} {
+			ls := lss[k%len(lss)]
+			if ls.has && ls.cur == nil {
+				continue
+			}
+			cur := ls.cur
+			if cur == nil {
+				cur = ls.branches[0]
+			}
+			if cur.virtual {
+				continue
+			}
+			stored := uint64(0)
+			if ls.has {
+				stored = ls.curSize
+			}
+			size := stored
+			if size < cur.size() && (stored > 0 || !ls.has) {
+				size = stored + 1
+			}
+			if !ls.has && size == 0 {
+				size = 1
+			}
+			proof := [][]byte{}
+			if stored > 0 && stored < size {
+				proof = cur.consistency(stored, size)
+			}
+			var ext []string
+			for n := 0; n < total; n += 65 {
+				ext = append(ext, fmt.Sprintf("pad-%02d-%s", k, strings.Repeat("x", 57)))
+			}
+			res := s.update(ls.l.id, stored, signNote(cpText(ls.l.origin, size, cur.root(size), ext...), ls.l.key.signer), proof, "class=api.bigCheckpoint")
+			ls.observe(res, ls.l.key.verif)
+			probe()
+		}
 		// a read that is slow inside the storage layer, an update accepted meanwhile, then a second read: the second one was
 		// issued after the update had returned, so it is served the new checkpoint (whatever the first one gets)
 		if kind != "sqldrv" {
